@@ -6,22 +6,30 @@ namespace C06
 open Framing Spec.Framing
 variable {α : Type}
 
-/-- **Outgoing limit, exactly.**  A message is refused iff its on-the-wire payload is over the
-configured limit (OUT_OF_RANGE) or, failing that, over 2^32−1 bytes (RESOURCE_EXHAUSTED);
-otherwise it is framed. -/
+/-- **Outgoing limit, exactly.**  A message the encoder could serialize is refused iff its
+on-the-wire payload is over the configured limit (OUT_OF_RANGE) or, failing that, over 2^32−1
+bytes (RESOURCE_EXHAUSTED); otherwise it is framed.  A message `Encoder::encode` itself fails on
+is refused with INTERNAL whatever its size. -/
 theorem C06_encode_limit (cd : Codec α) (cfg : EncCfg) (m : α) :
     let len := (Framing.payload cd cfg m).length
-    (encodeErr cd cfg m = some ⟨11, .tooLargeEnc⟩ ↔ ∃ l, cfg.maxSize = some l ∧ len > l) ∧
-    (encodeErr cd cfg m = some ⟨8, .over4G⟩ ↔ (∀ l, cfg.maxSize = some l → len ≤ l) ∧ len > u32Max) ∧
-    (encodeErr cd cfg m = none ↔ (∀ l, cfg.maxSize = some l → len ≤ l) ∧ len ≤ u32Max) := by
+    (encodeErr cd cfg m = some ⟨13, .encode⟩ ↔ cd.serFail m = true) ∧
+    (encodeErr cd cfg m = some ⟨11, .tooLargeEnc⟩ ↔ cd.serFail m = false ∧ ∃ l, cfg.maxSize = some l ∧ len > l) ∧
+    (encodeErr cd cfg m = some ⟨8, .over4G⟩ ↔
+      cd.serFail m = false ∧ (∀ l, cfg.maxSize = some l → len ≤ l) ∧ len > u32Max) ∧
+    (encodeErr cd cfg m = none ↔ cd.serFail m = false ∧ (∀ l, cfg.maxSize = some l → len ≤ l) ∧ len ≤ u32Max) := by
   simp only [encodeErr]
-  cases cfg.maxSize with
-  | none =>
-    by_cases h : (Framing.payload cd cfg m).length > u32Max <;> simp [h] <;> omega
-  | some l =>
-    by_cases h1 : (Framing.payload cd cfg m).length > l
-    · simp [h1]; omega
-    · by_cases h2 : (Framing.payload cd cfg m).length > u32Max <;> simp [h1, h2] <;> omega
+  cases hsf : cd.serFail m with
+  | true => simp
+  | false =>
+    simp only [Bool.false_eq_true, ↓reduceIte, true_and]
+    refine ⟨by cases cfg.maxSize <;> simp <;> split <;> simp, ?_⟩
+    cases cfg.maxSize with
+    | none =>
+      by_cases h : (Framing.payload cd cfg m).length > u32Max <;> simp [h] <;> omega
+    | some l =>
+      by_cases h1 : (Framing.payload cd cfg m).length > l
+      · simp [h1]; omega
+      · by_cases h2 : (Framing.payload cd cfg m).length > u32Max <;> simp [h1, h2] <;> omega
 
 /-- **No collateral loss (server).**  For every schedule of the message source — messages,
 `Pending`s, source errors, oversized messages at any position — the response body delivers
